@@ -53,11 +53,13 @@ IMPL = {
     "note.reset_note": lambda nm, o, nm2, o2: (lambda n: (n.set_note(nm2, o2), [n.name, n.octave, int(n)])[1])(Note(nm, o)),
     "note.reset_sh": lambda nm, o, nm2, o2: (lambda n: [n.name, n.octave])(Note(nm, o).from_shorthand(Note(nm2, o2).to_shorthand())),
     "note.hz": hz_roundtrip,
+    # frequencies of NAMED notes (pitch numbers below 0 and above 127 included): [Hz, Hz an octave up, Hz of the enharmonic]
+    "note.hz_named": lambda nm, o, nm2, o2, sp: [Note(nm, o).to_hertz(sp), Note(nm, o + 1).to_hertz(sp), Note(nm2, o2).to_hertz(sp)],
     "note.copy_indep": copy_indep,
     "note.roundtrips": roundtrips,
     "note.helmholtz": lambda nm, o: (lambda n: [n.name, n.octave])(Note().from_shorthand(Note(nm, o).to_shorthand())),
 }
-NO_MODEL = {"note.reset_int", "note.reset_note", "note.reset_sh", "note.hz", "note.copy_indep", "note.roundtrips", "note.helmholtz"}
+NO_MODEL = {"note.hz_named", "note.reset_int", "note.reset_note", "note.reset_sh", "note.hz", "note.copy_indep", "note.roundtrips", "note.helmholtz"}
 
 def has_model(c):
     return c["fn"] not in NO_MODEL
@@ -76,6 +78,13 @@ def cases(tier, rng):
         yield Case("note.copy_indep", [x, 4], "copy", model=False)
     for i in list(range(-30, 160)):
         yield Case("note.from_int", [i], "from_int")
+    for sp in (440, 415, 466):
+        for nm, o, nm2, o2 in (("Cb", 0, "B", -1), ("Cbb", 0, "Bb", -1), ("C", 0, "B#", -1), ("Cb", 4, "B", 3), ("B#", 10, "C", 11),
+                               ("G", 9, "F##", 9), ("A", 4, "G##", 4), ("Dbb", 0, "C", 0)):
+            if o2 >= 0:
+                yield Case("note.hz_named", [nm, o, nm2, o2, sp], "hz/named", model=False)
+            else:
+                yield Case("note.hz_named", [nm, o, nm, o, sp], "hz/named", model=False)
     olds = [("C", 4), ("Cb", 4), ("B#", 3), ("Cbb", 5), ("B##", 3), ("F#", 0), ("E#", 2), ("Fb", 6), ("A", 8)]
     for nm, o in olds:
         base = 12 * o + NATURAL[nm[0]] + net(nm)
@@ -100,7 +109,7 @@ def cases(tier, rng):
         yield Case("note.new", [bad, 4, None, None], "malformed")
     for s in ["C-4", "Bb-0", "F##-10", "A-007", "G#b-3"]:
         yield Case("note.new", [s, 9, None, None], "text")
-    for sh in ["c", "C", "c'", "C,", "cb", "bb", "b", "bb''", "B,,", "f#'''", "Bb", "ab", "a#", "c,'", "", "x", "eb,"]:
+    for sh in ["c", "C", "c'", "C,", "cb", "bb", "b", "bb''", "B,,", "f#'''", "Bb", "ab", "a#", "c,'", "", "x", "eb,", ",,", "'", "#", "1", " c"]:
         yield Case("note.from_shorthand", [sh], "helmholtz/from")
     for x in names(1):
         for o in (0, 1, 3):
@@ -161,10 +170,27 @@ def oracle(c, obs):
         if c["tag"] == "malformed":
             return None if isinstance(obs, Err) and obs.name in ("NoteFormatError", "ValueError", "IndexError") else "malformed name not rejected"
         return None
+    if fn == "note.from_shorthand":
+        sh = a[0]
+        if not any(ch in "abcdefgABCDEFG" for ch in sh):
+            return None if isinstance(obs, Err) else "Helmholtz text %r without a note letter was accepted as %s" % (sh, obs)
+        return None
     if fn == "note.copy_indep":
         return None if obs == [True, True, True] else "a copy of a note is not independent of the original"
     if fn == "note.change_octave":
         return None if isinstance(obs, list) and obs[1] == max(0, a[1] + a[2]) else "change_octave went below octave 0 or missed"
+    if fn == "note.hz_named":
+        nm, o, nm2, o2, sp = a
+        if isinstance(obs, Err):
+            return "to_hertz raised %s" % obs.name
+        hz, up, enh = obs
+        p = 12 * o + NATURAL[nm[0]] + net(nm)
+        want = sp * 2 ** ((p - 57) / 12.0)
+        if abs(hz / want - 1) > 1e-9:
+            return "frequency of %s-%d is %r, expected %r (A-4 = %s, doubling per octave)" % (nm, o, hz, want, sp)
+        if abs(up / hz - 2) > 1e-9:
+            return "frequency does not double per octave"
+        return None if abs(enh / hz - 1) < 1e-9 else "an enharmonic note has another frequency"
     if fn == "note.hz":
         i, sp, cents = a
         back, hz, hz12, a4 = obs
